@@ -199,7 +199,7 @@ def slot(kinds):
 
 def vtree():
     plain = st.sampled_from([{"k": "text", "s": "p"}, {"k": "text", "s": ""}, {"k": "meta"}, {"k": "dep", "name": "d", "version": "1"}])
-    leaf = gen.opaque(st.one_of(slot(["html", "repr", "repr-iter"]), slot(["html", "repr", "dephead"]), plain))
+    leaf = gen.opaque(st.one_of(slot(["html", "repr", "repr-iter", "repr-inst"]), slot(["html", "repr", "dephead"]), plain))
     rawleaf = gen.opaque(st.one_of(slot(["rawtext", "rawhtml"]), slot(["rawtext", "rawhtml"]), st.sampled_from([{"k": "meta"}, {"k": "dep", "name": "d", "version": "1"}])))
     attr = st.lists(st.tuples(st.sampled_from(["class", "title", "data-x", "style"]), st.lists(markup(), min_size=1, max_size=3)).map(list), max_size=2)
 
@@ -261,6 +261,10 @@ class _B:
             if r["kind"] == "dephead":
                 # trusted markup that travels as the head payload of a dependency (shown by the document paths)
                 return h.HTMLDependency("slotdep%d" % (len(self.slots) - 1), "1.0", head=h.HTML(v))
+            if r["kind"] == "repr-inst":
+                from hv.build import build as _b
+
+                return _b({"k": "repr", "s": v, "inst": True})
             if r["kind"] == "repr-iter":
                 from hv.build import ReprIter
 
@@ -400,7 +404,7 @@ CLAUSES = [
         quick=600,
         thorough=15000,
         shards_quick=4,
-        required=("slot:html", "slot:repr", "slot:rawtext", "slot:rawhtml", "slot:attr", "slot:attr-merge", "prior-plain-render", "long-markup", "slot:late-append", "slot:late-insert", "slot:via-consolidate", "slot:repr-iter", "slot:post-add_class", "slot:post-add_style", "slot:dephead", "earlier-operations-raised"),
+        required=("slot:html", "slot:repr", "slot:rawtext", "slot:rawhtml", "slot:attr", "slot:attr-merge", "prior-plain-render", "long-markup", "slot:late-append", "slot:late-insert", "slot:via-consolidate", "slot:repr-iter", "slot:post-add_class", "slot:post-add_style", "slot:dephead", "slot:repr-inst", "earlier-operations-raised"),
         rule="see RULE",
     ),
 ]
